@@ -241,9 +241,13 @@ func (i StringAnyMapInspector) indir1(dst *map[string]any, val any) error {
 	case map[string]any:
 		*dst = x
 	case *map[string]any:
-		*dst = *x
+		if x != nil {
+			*dst = *x
+		}
 	case **map[string]any:
-		*dst = *(*x)
+		if x != nil && *x != nil {
+			*dst = *(*x)
+		}
 	default:
 		return ErrUnsupportedType
 	}
@@ -255,9 +259,13 @@ func (i StringAnyMapInspector) indir2(dst *map[string]any, val any) error {
 	case map[string]any:
 		return ErrMustPointerType
 	case *map[string]any:
-		*dst = *x
+		if x != nil {
+			*dst = *x
+		}
 	case **map[string]any:
-		*dst = *(*x)
+		if x != nil && *x != nil {
+			*dst = *(*x)
+		}
 	default:
 		return ErrUnsupportedType
 	}
